@@ -1946,6 +1946,18 @@ func (p *Parser) parseRateLimit() (*ast.RateLimit, error) {
 
 // parseStatement parses a statement
 func (p *Parser) parseStatement() (ast.Statement, error) {
+	// Statements nest through blocks (if / while / for / switch bodies) just as
+	// expressions nest through parentheses; both share the depth budget, so
+	// deeply nested blocks end in a diagnostic instead of exhausting the stack.
+	p.depth++
+	if p.depth > maxParseDepth {
+		return nil, fmt.Errorf("maximum nesting depth exceeded (%d levels)", maxParseDepth)
+	}
+	defer func() { p.depth-- }()
+	return p.parseStatementUnguarded()
+}
+
+func (p *Parser) parseStatementUnguarded() (ast.Statement, error) {
 	switch p.current().Type {
 	case QUESTION:
 		// ? validate_fn(args)                 -- validation assertion
